@@ -38,6 +38,9 @@ pub struct Policy {
     /// once the reading end has been dropped (the peer hung up) writes AND flushes fail with `WriteZero` — what a yamux
     /// stream does after the remote closed it — instead of writes failing with `BrokenPipe`
     pub gone_is_write_zero: bool,
+    /// bytes the reader may still take (a slow link: the scenario grants a budget per tick of virtual time through
+    /// `PipeHandle::set_policy`); `None` = unlimited
+    pub read_quota: Option<u64>,
     /// after this many bytes have been written in total the pipe reports EOF to the reader and discards the rest
     pub cut_after: Option<u64>,
     /// XOR masks applied to bytes at absolute stream offsets (in-transit corruption)
@@ -56,6 +59,7 @@ impl Default for Policy {
             pending_flushes: BTreeSet::new(),
             deliver_on_flush: false,
             gone_is_write_zero: false,
+            read_quota: None,
             cut_after: None,
             flips: Vec::new(),
         }
@@ -193,9 +197,20 @@ impl AsyncRead for PipeReader {
             }
             s.first_read_done = true;
         }
+        if let Some(q) = s.policy.read_quota {
+            if q == 0 {
+                // the link's budget for this tick is used up: the bytes are in flight, not lost
+                s.reader_waker = Some(cx.waker().clone());
+                return Poll::Pending;
+            }
+            cap = cap.min(q.min(usize::MAX as u64) as usize);
+        }
         let n = out.len().min(s.buf.len()).min(cap.max(1));
         for b in out.iter_mut().take(n) {
             *b = s.buf.pop_front().unwrap();
+        }
+        if let Some(q) = s.policy.read_quota.as_mut() {
+            *q -= n as u64;
         }
         s.stats.bytes_read += n as u64;
         if let Some(w) = s.writer_waker.take() {
